@@ -329,6 +329,19 @@ fn eval_phase(s: &Scn, start: u64, alive: &[(usize, u64)], has_clients: bool, by
         return vec![(Outcome::Ok, start - 1)];
     }
     let _ = by_step;
+    // the duration was already exceeded before this phase began (only the step *during which* it
+    // is crossed still counts as in time): a client that is still unfinished is out of time at once
+    let crossing = s.duration_ms / s.tick_ms + 1;
+    if start > crossing && alive.iter().any(|(i, _)| s.sw[*i].is_client) {
+        // the step is still taken: software that fails or panics in that very step is reported as such
+        let mut v: Vec<(Outcome, u64)> = alive
+            .iter()
+            .filter(|(i, c)| *c == start && matches!(s.sw[*i].kind, Kind::Err | Kind::Panic))
+            .map(|(i, _)| (if s.sw[*i].kind == Kind::Err { Outcome::SwErr(*i) } else { Outcome::Panic }, start))
+            .collect();
+        v.push((Outcome::Duration, start));
+        return v;
+    }
     let mut e = INF;
     let mut f = start;
     for (i, c) in alive {
